@@ -4,7 +4,7 @@
 // terminal_is_recognised).  One instantiation per format because the hook structs are private.
 
 use super::*;
-use crate::verif_common::{instr_time_is_stored, label_round_trip, instr_round_trip, instr_size_field, terminal_is_recognised, Stored, SizeField};
+use crate::verif_common::{read_instr_never_panics, decode_label_never_panics, instr_time_is_stored, label_round_trip, instr_round_trip, instr_size_field, terminal_is_recognised, Stored, SizeField};
 
 macro_rules! c03 {
     ($name:ident, $unwind:literal, $body:expr) => {
@@ -13,6 +13,19 @@ macro_rules! c03 {
         #[kani::stub(alloc::fmt::format, crate::verif_common::stub_fmt_format)]
         #[kani::stub(crate::error::ErrorReported::new, crate::verif_common::stub_error_reported_new)]
         #[kani::stub(crate::io::nice_display_path, crate::verif_common::stub_nice_display_path)]
+        #[kani::stub(crate::llir::fit_instr_field, crate::verif_common::stub_fit_instr_field)]
+        #[kani::stub(crate::llir::forbid_reserved_opcode, crate::verif_common::stub_forbid_reserved_opcode)]
+        fn $name() { $body }
+    };
+}
+macro_rules! c16 {
+    ($name:ident, $unwind:literal, $body:expr) => {
+        #[kani::proof]
+        #[kani::unwind($unwind)]
+        #[kani::stub(alloc::fmt::format, crate::verif_common::stub_fmt_format)]
+        #[kani::stub(crate::error::ErrorReported::new, crate::verif_common::stub_error_reported_new)]
+        #[kani::stub(crate::io::nice_display_path, crate::verif_common::stub_nice_display_path)]
+        #[kani::stub(crate::diagnostic::RootEmitter::emit, crate::verif_common::stub_root_emit)]
         #[kani::stub(crate::llir::fit_instr_field, crate::verif_common::stub_fit_instr_field)]
         #[kani::stub(crate::llir::forbid_reserved_opcode, crate::verif_common::stub_forbid_reserved_opcode)]
         fn $name() { $body }
@@ -34,6 +47,15 @@ c03!(c03_label_absolute, 2, label_round_trip(&MsgHooks { language: LanguageKey::
 
 //@ C13 c13_msg_time_stored quick default MSG: if write_instr accepts an instruction, the time read back from the written bytes is the requested time, for every i32 time (a time that does not fit the field must be rejected, never stored differently)
 c03!(c13_msg_time_stored, 8, instr_time_is_stored::<4>(&MsgHooks { language: LanguageKey::Msg }, Stored { param_mask: false, difficulty: false, extra_arg: false, pop_and_arg_count: false, maybe_terminal: true, ignore_param_mask: false }, |_| true));
+
+// ---------------------------------------------------------------------------------------
+// C16, header level: see read_instr_never_panics / decode_label_never_panics in common.rs
+//@ C16 c16_msg_read_size0 quick default MSG: read_instr on arbitrary header bytes whose size field is 0 (no arguments) returns Ok or Err and never panics (no underflow, no failed assert, no out-of-range read)
+c16!(c16_msg_read_size0, 12, read_instr_never_panics::<4>(&MsgHooks { language: LanguageKey::Msg }, 3, 1, 0));
+//@ C16 c16_msg_read_size4 quick default MSG: read_instr on arbitrary header bytes whose size field is 4 (4 argument bytes) returns Ok or Err and never panics (no underflow, no failed assert, no out-of-range read)
+c16!(c16_msg_read_size4, 12, read_instr_never_panics::<8>(&MsgHooks { language: LanguageKey::Msg }, 3, 1, 4));
+//@ C16 c16_label_absolute_no_panic quick default default label decoding (MSG, ANM, STD TH095+) of an arbitrary 32-bit jump argument never panics
+c16!(c16_label_absolute_no_panic, 2, decode_label_never_panics(&MsgHooks { language: LanguageKey::Msg }));
 
 #[cfg(kani)]
 #[path = "/verif/.cache/playback/msg.rs"]
